@@ -134,7 +134,10 @@ def mk_field(base, name):
 
 
 class Exprs:
-    def __init__(self, body):
+    def __init__(self, body, keep=None):
+        """keep: locals that are never expanded to their defining expression (they stay symbolic
+        ('var', l, version) so that rules can talk about 'the current value of alpha')."""
+        self.keep = set(keep or ())
         self.b = body
         self.facts = body.facts
         self.rd = body.reaching()
@@ -226,6 +229,8 @@ class Exprs:
 
     def local(self, l, loc):
         defs = self.rd.defs(l, loc)
+        if l in self.keep:
+            return ("var", l, defs)
         if len(defs) == 1:
             (dloc, kind), = defs
             if kind == "entry":
